@@ -72,6 +72,9 @@ func runC09(t *testing.T, c *choice.Stream, r *Result, opt RunOpt) {
 		rows0 := 0
 		if c.Bool("initial", 1, 2) {
 			rows0 = c.Range("rows0", 1, 6)
+			if c.Bool("rows0.big", 1, 10) {
+				rows0 = c.Pick("rows0.bigrows", 600, 3000, 9000)
+			}
 		}
 		initial := drawRoundVals(c, cols, rows0)
 		// ---- the callback history ----
@@ -91,7 +94,12 @@ func runC09(t *testing.T, c *choice.Stream, r *Result, opt RunOpt) {
 			}
 			switch op.Op {
 			case "append", "reset-append", "eof-tail-new":
-				op.Vals = drawRoundVals(c, cols, c.Range("op.rows", 1, 5))
+				rows := c.Range("op.rows", 1, 5)
+				if c.Bool("op.bigrows", 1, 8) {
+					// blocks big enough to cross buffer and frame-size thresholds (tens of KiB and more)
+					rows = c.Pick("op.rows.big", 600, 3000, 9000)
+				}
+				op.Vals = drawRoundVals(c, cols, rows)
 			case "overwrite":
 				op.Vals = drawRoundVals(c, cols, 1)
 				op.Idx = c.Draw("op.idx", 8)
